@@ -95,9 +95,15 @@ func (n *namer) take(s string) bool {
 	return true
 }
 
+// forceFiles, when positive, is the number of files of the next models (the draw still takes place).
+var forceFiles int
+
 func drawDialectModel(t *rapid.T, idx int) XDialect {
 	var d XDialect
 	nfiles := rapid.SampledFrom([]int{1, 1, 2, 3, 4}).Draw(t, "nfiles")
+	if forceFiles > 0 {
+		nfiles = forceFiles
+	}
 	base := fmt.Sprintf("d%d%s", idx, rapid.SampledFrom([]string{"", "x", "_y", "ab_cd"}).Draw(t, "suffix"))
 	msgNames := &namer{used: map[string]bool{}}
 	entryNames := &namer{used: map[string]bool{}}
@@ -365,12 +371,33 @@ func drawDialectModel(t *rapid.T, idx int) XDialect {
 }
 
 // injectDefect turns a valid model into one the generator cannot express.
-func injectDefect(t *rapid.T, d *XDialect) {
-	kind := rapid.SampledFrom([]string{"unknown-field-type", "bad-enum-value", "bad-message-name", "duplicate-message-id"}).Draw(t, "defect")
+func injectDefect(t *rapid.T, d *XDialect, kinds ...string) {
+	if len(kinds) == 0 {
+		kinds = []string{"unknown-field-type", "bad-enum-value", "bad-message-name", "duplicate-message-id", "message-too-big"}
+	}
+	kind := rapid.SampledFrom(kinds).Draw(t, "defect")
 	if kind == "duplicate-message-id" && len(d.AllMsgs()) < 2 {
 		kind = "bad-message-name"
 	}
 	switch kind {
+	case "message-too-big":
+		// a payload of more than 255 bytes does not fit a frame: one array that is too long by itself (its byte size
+		// may be a multiple of 256, or just above one), or fields that are too much together
+		ms := d.Files[0].Msgs
+		m := &d.Files[0].Msgs[rapid.IntRange(0, len(ms)-1).Draw(t, "too_big_message")]
+		big := rapid.SampledFrom([]XField{
+			{Name: "too_long", Type: "uint16_t", ArrayLen: 200}, {Name: "too_long", Type: "uint32_t", ArrayLen: 64},
+			{Name: "too_long", Type: "uint64_t", ArrayLen: 32}, {Name: "too_long", Type: "double", ArrayLen: 255},
+			{Name: "too_long", Type: "uint16_t", ArrayLen: 128}, {Name: "too_long", Type: "float", ArrayLen: 65},
+			{Name: "too_long", Type: "int16_t", ArrayLen: 129}, {Name: "too_long", Type: "uint8_t", ArrayLen: 255},
+		}).Draw(t, "too_big_field")
+		if big.Type == "uint8_t" {
+			// 255 bytes alone fit; together with one more byte they do not
+			m.Fields = append([]XField{{Name: "one_more", Type: "uint8_t"}}, m.Fields...)
+		}
+		m.Fields = append([]XField{big}, m.Fields...)
+		d.Negative = fmt.Sprintf("%s:%s[%d] in %s", kind, big.Type, big.ArrayLen, m.Name)
+		return
 	case "duplicate-message-id":
 		// two different messages of the include tree under one id: a dialect cannot hold both
 		type ref struct{ fi, mi int }
